@@ -254,6 +254,8 @@ def make_session(M, ch, rng, sysd, mats_shared, sid, st, reuse=None, pre_use=Fal
     nt = (list(range(1, 13)) + [20, 33, 64])[ch.weighted([2, 2, 4, 6, 6, 6, 6, 4, 4, 2, 2, 2, 2, 1, 1], "nt")]
     if DEEP[0]:
         nt = 30 + ch.draw(90, "nt_deep")
+    if reuse is not None and ch.flip(1, 2, "same_nt_again"):
+        nt = reuse.nt  # a second run of the same length on the same object (buffers of equal shape)
     if nt > 12:
         st.fault("long_session")
     s.nt = nt
@@ -566,6 +568,26 @@ def finalize(M, s, st, tr, get_force=True):
     if not np.array_equal(np.asarray(sol.t), np.asarray(ref.t)) or sol.h != ref.h:
         raise Violation("final_time_wrong", f"{where}:finalize.t", got=np.asarray(sol.t).tolist()[:5], expected=np.asarray(ref.t).tolist()[:5])
     tr.ev("final", s.id, sol.d, sol.v, sol.a)
+    # kept: the solution handed to the caller must still be that solution after the solver
+    # object has been used again (checked at the end of the run)
+    s.final = (sol, {nm: np.array(getattr(sol, nm), copy=True) for nm in ("d", "v", "a") + (("force",) if get_force else ())})
+
+
+def recheck_finals(sessions, st):
+    """Solutions returned by finalize() earlier in the run have not changed since."""
+    for s in sessions:
+        fin = getattr(s, "final", None)
+        if fin is None:
+            continue
+        sol, snap = fin
+        for nm, old in snap.items():
+            now = np.asarray(getattr(sol, nm))
+            if now.shape != old.shape or not np.array_equal(now, old, equal_nan=True):
+                raise Violation(
+                    "final_solution_changed_later", f"{s.sys.kind}/order{s.sys.order}:finalize.{nm}", session=s.id, life=s.life,
+                    reason="the array returned by finalize() was modified by later use of the same solver object",
+                )
+        st.probe("finals_rechecked")
 
 
 # ---------------------------------------------------------------------- run
@@ -631,6 +653,7 @@ def _run(M, ch, tr, st, rng):
         allops.append("-- finalize; generator() again on the same instances --")
         steps += drive(M, ch, tr, st, rng, second, max(3, nops // 2), knobs, allops)
         sessions = sessions + second
+    recheck_finals(sessions, st)
     st.steps = steps
     hist = " ".join(allops)
     st.nontrivial = any(k in hist for k in ("[redo]", "[jump_back]", "[addon]", "f2x_probe"))
